@@ -307,7 +307,7 @@ func c04Concurrent(w *fw.Worker, i int, r *fw.Rand) {
 	var rejected, installed atomic.Int64
 
 	// mon.stored observer: earliest instant a config is visible
-	e.ExtraHook = func(name string, args []any) {
+	e.ExtraHook = func(name string, _ context.Context, args []any) {
 		if name == "mon.stored" && len(args) >= 3 {
 			serial, _ := args[1].(uint64)
 			cfg, _ := args[2].(*conc.Cfg)
